@@ -97,6 +97,7 @@ type c11Fault struct{ r, k, d, c int }
 type c11Env struct {
 	mu      sync.Mutex
 	faults  []c11Fault
+	cancel  context.CancelFunc
 	log     []c11Call
 	flavour int
 }
@@ -151,6 +152,17 @@ func (r *c11Replica) realHas(ctx context.Context, i int) bool {
 
 func (r *c11Replica) letter() string { return string(rune('A' + r.name)) }
 func (r *c11Replica) inj(c int) error {
+	if c == int(codes.Canceled) {
+		// CANCELLED is what a replica reports when the CALLER's context is
+		// cancelled while its call is in flight: cancel it for real, so that
+		// code which inspects the context sees what it would see then.
+		r.env.mu.Lock()
+		cancel := r.env.cancel
+		r.env.mu.Unlock()
+		if cancel != nil {
+			cancel()
+		}
+	}
 	return status.Error(codes.Code(uint32(c)), "inj@"+r.letter())
 }
 
@@ -466,12 +478,13 @@ func (c11) Exec(in Sx) (Sx, bool) {
 	var ba blobstore.BlobAccess = mirrored.NewMirroredBlobAccess(ra, rb,
 		replication.NewLocalBlobReplicator(ra, rb),
 		replication.NewLocalBlobReplicator(rb, ra))
-	ctx := context.Background()
 	var out []Sx
 	for _, p := range ops {
+		ctx, cancel := context.WithCancel(context.Background())
 		env.mu.Lock()
 		env.faults = p.faults
 		env.log = nil
+		env.cancel = cancel
 		env.mu.Unlock()
 		var err error
 		payload := []Sx{}
@@ -555,7 +568,7 @@ func c11Place(ps []int, va, vb int) (Sx, Sx) {
 	return LInts(a), LInts(b)
 }
 
-var c11Codes = []int{14, 14, 13, 4, 7, 2, 9}
+var c11Codes = []int{14, 14, 13, 4, 7, 2, 9, 1}
 
 // every fault choice for one call pattern: none, then each key with each code
 func c11FaultChoices(getKeys, otherKeys [][3]int) []Sx {
